@@ -263,6 +263,7 @@ func Main(h Harness) {
 		budget   = flag.Duration("budget", 0, "wall-clock budget; the level in progress becomes exhaustive:false")
 		only     = flag.String("only", "", "only specs whose name contains this")
 		depth    = flag.Int("depth", 0, "override depth")
+		_        = flag.Bool("unlockpoints", false, "accepted for symmetry with the schedule explorer (no effect here)")
 	)
 	xplore.QuietLogs()
 	flag.Parse()
